@@ -56,6 +56,33 @@ type Type struct {
 	Kind  Kind
 	Size  int // byte width for ints / wide / fixed
 	Elems []*Type
+	Enum  []EnumDef // Enum8/Enum16: the defined values, in order of definition
+}
+
+// EnumDef is one 'name' = value element of an enum type.
+type EnumDef struct {
+	Name string
+	Val  int64
+}
+
+func parseEnum(args string) ([]EnumDef, error) {
+	var out []EnumDef
+	for _, p := range splitTop(args) {
+		q := strings.LastIndexByte(p, '=')
+		if q < 0 {
+			return nil, fmt.Errorf("refproto: enum element %q", p)
+		}
+		name := strings.TrimSpace(p[:q])
+		if len(name) < 2 || name[0] != '\'' || name[len(name)-1] != '\'' {
+			return nil, fmt.Errorf("refproto: enum name %q", name)
+		}
+		v, err := strconv.ParseInt(strings.TrimSpace(p[q+1:]), 10, 64)
+		if err != nil {
+			return nil, err
+		}
+		out = append(out, EnumDef{Name: name[1 : len(name)-1], Val: v})
+	}
+	return out, nil
 }
 
 func splitTop(s string) []string {
@@ -169,10 +196,16 @@ func ParseType(name string) (*Type, error) {
 		default:
 			t.Kind, t.Size = KWide, 32
 		}
-	case "Enum8":
+	case "Enum8", "Enum16":
 		t.Kind, t.Size = KInt, 1
-	case "Enum16":
-		t.Kind, t.Size = KInt, 2
+		if base == "Enum16" {
+			t.Size = 2
+		}
+		defs, err := parseEnum(args)
+		if err != nil {
+			return nil, err
+		}
+		t.Enum = defs
 	case "Point":
 		t.Kind = KTuple
 		f, _ := ParseType("Float64")
